@@ -116,6 +116,30 @@ impl AsyncWrite for Script {
     }
 }
 
+
+/// an input of CAP bytes: every byte symbolic except the listed (index, value) pairs, which are
+/// written as literal constants BEFORE anything is copied (so that CBMC folds the branches on them)
+pub(crate) fn input_with(fixed: &[(usize, u8)]) -> [u8; CAP] {
+    let mut d = [0u8; CAP];
+    let mut i = 0;
+    while i < CAP {
+        let mut is_fixed = false;
+        let mut j = 0;
+        while j < fixed.len() {
+            if fixed[j].0 == i {
+                d[i] = fixed[j].1;
+                is_fixed = true;
+            }
+            j += 1;
+        }
+        if !is_fixed {
+            d[i] = kani::any();
+        }
+        i += 1;
+    }
+    d
+}
+
 /// poll to completion (at most `max` polls); the future is leaked, never dropped
 pub(crate) fn run<F: Future>(f: F, max: usize) -> Option<F::Output> {
     let mut f = core::mem::ManuallyDrop::new(f);
@@ -175,13 +199,10 @@ fn same(v: &[u8], exp: &[u8], n: usize) -> bool {
 // ============================================================================ SOCKS5 request
 /// VER CMD RSV ATYP=3 LEN host[L] PORT + one extra byte.  `chunk`/`stall` fixed per instantiation.
 fn s5_domain<const L: usize>(chunk: usize, stall: bool) {
-    let mut data: [u8; CAP] = kani::any();
-    data[0] = 5;
-    data[3] = 3;
-    data[4] = L as u8;
+    let data = input_with(&[(0, 5), (3, 3), (4, L as u8)]);
     let total = 7 + L;
     let mut s = Script::new(data, total + 1, chunk, stall);
-    let r = run(v5::read_request(&mut s), 2 * CAP + 4);
+    let r = run(v5::read_request(&mut s), if stall { 20 } else { 2 });
     match &r {
         Some(Ok((cmd, host, port))) => {
             assert!(*cmd == data[1], "C18.s5.cmd: the command octet");
@@ -201,7 +222,7 @@ fn s5_ipv4(chunk: usize, stall: bool) {
     data[3] = 1;
     let total = 10;
     let mut s = Script::new(data, total + 1, chunk, stall);
-    let r = run(v5::read_request(&mut s), 2 * CAP + 4);
+    let r = run(v5::read_request(&mut s), if stall { 20 } else { 2 });
     let (exp, n) = dotted([data[4], data[5], data[6], data[7]]);
     match &r {
         Some(Ok((cmd, host, port))) => {
@@ -226,7 +247,7 @@ fn s5_ipv6(addr: [u8; 16], text: &[u8]) {
     }
     let total = 22;
     let mut s = Script::new(data, total + 1, 5, false);
-    let r = run(v5::read_request(&mut s), 2 * CAP + 4);
+    let r = run(v5::read_request(&mut s), 2);
     match &r {
         Some(Ok((cmd, host, port))) => {
             assert!(*cmd == data[1] && *port == (data[20] as u16) * 256 + data[21] as u16, "C18.s5.v6.fields");
@@ -246,7 +267,7 @@ fn s5_truncated<const K: usize>() {
     data[3] = 3;
     data[4] = 2;
     let mut s = Script::new(data, K, 3, false);
-    let r = run(v5::read_request(&mut s), 2 * CAP + 4);
+    let r = run(v5::read_request(&mut s), 2);
     assert!(matches!(&r, Some(Err(Error::ProcessSocksRequest(_, _)))), "C18.s5.truncated: a truncated request fails with an error");
     core::mem::forget(r);
 }
@@ -255,7 +276,7 @@ fn s5_bad_version() {
     let mut data: [u8; CAP] = kani::any();
     kani::assume(data[0] != 5);
     let mut s = Script::new(data, 12, 4, false);
-    let r = run(v5::read_request(&mut s), 2 * CAP + 4);
+    let r = run(v5::read_request(&mut s), 2);
     assert!(matches!(&r, Some(Err(Error::SocksVersion(v))) if *v == data[0]), "C18.s5.version: any other version octet is rejected with SocksVersion");
     core::mem::forget(r);
     assert!(s.out_n == 0, "C18.s5.version.silent");
@@ -266,7 +287,7 @@ fn s5_unknown_atyp() {
     data[0] = 5;
     kani::assume(data[3] != 1 && data[3] != 3 && data[3] != 4);
     let mut s = Script::new(data, 12, 4, false);
-    let r = run(v5::read_request(&mut s), 2 * CAP + 4);
+    let r = run(v5::read_request(&mut s), 2);
     assert!(matches!(&r, Some(Err(Error::AddressType(t))) if *t == data[3]), "C18.s5.atyp: an unknown address type is rejected with AddressType");
     core::mem::forget(r);
     let exp = [5u8, 8, 0, 1, 0, 0, 0, 0, 0, 0];
@@ -279,7 +300,7 @@ fn s5_auth<const N: usize>(chunk: usize) {
     let mut data: [u8; CAP] = kani::any();
     data[0] = N as u8;
     let mut s = Script::new(data, 1 + N + 1, chunk, false);
-    let r = run(v5::read_auth_methods(&mut s), 2 * CAP + 4);
+    let r = run(v5::read_auth_methods(&mut s), 2);
     match &r {
         Some(Ok(m)) => assert!(same(m, &data[1..1 + N], N), "C18.s5.auth: exactly NMETHODS method octets, unchanged"),
         _ => assert!(false, "C18.s5.auth.ok"),
@@ -292,7 +313,7 @@ fn s5_auth_truncated() {
     data[0] = 3;
     let short: bool = kani::any();
     let mut s = Script::new(data, if short { 0 } else { 3 }, 2, false);
-    let r = run(v5::read_auth_methods(&mut s), 2 * CAP + 4);
+    let r = run(v5::read_auth_methods(&mut s), 2);
     assert!(matches!(&r, Some(Err(Error::ProcessSocksRequest(_, _)))), "C18.s5.auth.truncated");
     core::mem::forget(r);
 }
@@ -301,7 +322,7 @@ fn s5_auth_truncated() {
 fn s5_write_auth_method() {
     let m: u8 = kani::any();
     let mut s = Script::new([0; CAP], 0, 1, false);
-    let r = run(v5::write_auth_method(&mut s, m), 64);
+    let r = run(v5::write_auth_method(&mut s, m), 2);
     assert!(matches!(&r, Some(Ok(()))), "C18.s5.wauth.ok");
     core::mem::forget(r);
     assert!(s.out_n == 2 && s.out[0] == 5 && s.out[1] == m && s.flushes >= 1, "C18.s5.wauth.bytes: VER=5, METHOD");
@@ -312,7 +333,7 @@ fn s5_write_response_v4() {
     let port: u16 = kani::any();
     let mut s = Script::new([0; CAP], 0, 3, false);
     let a = SocketAddr::new(IpAddr::V4(Ipv4Addr::new(ip[0], ip[1], ip[2], ip[3])), port);
-    let r = run(v5::write_response(&mut s, code, a), 64);
+    let r = run(v5::write_response(&mut s, code, a), 2);
     assert!(matches!(&r, Some(Ok(()))), "C18.s5.reply4.ok");
     core::mem::forget(r);
     assert!(s.out_n == 10 && s.out[0] == 5 && s.out[1] == code && s.out[2] == 0 && s.out[3] == 1, "C18.s5.reply4.head: VER REP RSV ATYP");
@@ -325,7 +346,7 @@ fn s5_write_response_v6() {
     let port: u16 = kani::any();
     let mut s = Script::new([0; CAP], 0, 24, false);
     let a = SocketAddr::new(IpAddr::V6(Ipv6Addr::from(ip)), port);
-    let r = run(v5::write_response(&mut s, code, a), 64);
+    let r = run(v5::write_response(&mut s, code, a), 2);
     assert!(matches!(&r, Some(Ok(()))), "C18.s5.reply6.ok");
     core::mem::forget(r);
     assert!(s.out_n == 22 && s.out[0] == 5 && s.out[1] == code && s.out[2] == 0 && s.out[3] == 4, "C18.s5.reply6.head");
@@ -335,7 +356,7 @@ fn s5_write_response_v6() {
 fn s5_write_response_unspecified() {
     let code: u8 = kani::any();
     let mut s = Script::new([0; CAP], 0, 4, false);
-    let r = run(v5::write_response_unspecified(&mut s, code), 64);
+    let r = run(v5::write_response_unspecified(&mut s, code), 2);
     assert!(matches!(&r, Some(Ok(()))), "C18.s5.replyu.ok");
     core::mem::forget(r);
     let exp = [5u8, code, 0, 1, 0, 0, 0, 0, 0, 0];
@@ -356,7 +377,7 @@ fn s4_ip<const U: usize>(chunk: usize, stall: bool) {
     data[7 + U] = 0;
     let total = 8 + U;
     let mut s = Script::new(data, total + 1, chunk, stall);
-    let r = run(v4::read_request(&mut s), 2 * CAP + 4);
+    let r = run(v4::read_request(&mut s), if stall { 20 } else { 2 });
     let (exp, n) = dotted([data[3], data[4], data[5], data[6]]);
     match &r {
         Some(Ok((cmd, host, port))) => {
@@ -390,7 +411,7 @@ fn s4a_domain<const U: usize, const D: usize>(chunk: usize, stall: bool) {
     data[d0 + D] = 0;
     let total = d0 + D + 1;
     let mut s = Script::new(data, total + 1, chunk, stall);
-    let r = run(v4::read_request(&mut s), 2 * CAP + 4);
+    let r = run(v4::read_request(&mut s), if stall { 20 } else { 2 });
     match &r {
         Some(Ok((cmd, host, port))) => {
             assert!(*cmd == data[0] && *port == (data[1] as u16) * 256 + data[2] as u16, "C18.s4a.fields");
@@ -416,7 +437,7 @@ fn s4_truncated_in_userid() {
     }
     kani::assume(data[7] != 0 && data[8] != 0);
     let mut s = Script::new(data, 9, 4, false); // ... 'u' 'v' EOF
-    let r = run(v4::read_request(&mut s), 2 * CAP + 4);
+    let r = run(v4::read_request(&mut s), 2);
     assert!(!matches!(&r, Some(Ok(_))), "C18.s4.truncated.userid: end-of-file before the NUL of USERID is a truncated request, not a valid one");
     assert!(r.is_some(), "C18.s4.truncated.userid.terminates");
     core::mem::forget(r);
@@ -432,7 +453,7 @@ fn s4a_truncated_in_domain() {
     let none: bool = kani::any();
     kani::assume(data[9] != 0 && data[10] != 0);
     let mut s = Script::new(data, if none { 9 } else { 11 }, 4, false); // domain absent, or 'h' 'o' EOF
-    let r = run(v4::read_request(&mut s), 2 * CAP + 4);
+    let r = run(v4::read_request(&mut s), 2);
     assert!(!matches!(&r, Some(Ok(_))), "C18.s4a.truncated.domain: end-of-file before the NUL of the domain name is a truncated request");
     assert!(r.is_some(), "C18.s4a.truncated.domain.terminates");
     core::mem::forget(r);
@@ -440,14 +461,14 @@ fn s4a_truncated_in_domain() {
 fn s4_truncated_header<const K: usize>() {
     let data: [u8; CAP] = kani::any();
     let mut s = Script::new(data, K, 3, false);
-    let r = run(v4::read_request(&mut s), 2 * CAP + 4);
+    let r = run(v4::read_request(&mut s), 2);
     assert!(matches!(&r, Some(Err(Error::ProcessSocksRequest(_, _)))), "C18.s4.truncated.header");
     core::mem::forget(r);
 }
 fn s4_write_response() {
     let code: u8 = kani::any();
     let mut s = Script::new([0; CAP], 0, 3, false);
-    let r = run(v4::write_response(&mut s, code), 64);
+    let r = run(v4::write_response(&mut s, code), 2);
     assert!(matches!(&r, Some(Ok(()))), "C18.s4.reply.ok");
     core::mem::forget(r);
     let exp = [0u8, code, 0, 0, 0, 0, 0, 0];
@@ -464,42 +485,42 @@ macro_rules! h {
         }
     };
 }
-h!(c18_s5_req_domain_l0, 60, s5_domain::<0>(1, false));
-h!(c18_s5_req_domain_l1_stall, 60, s5_domain::<1>(1, true));
-h!(c18_s5_req_domain_l3_whole, 60, s5_domain::<3>(24, false));
-h!(c18_s5_req_domain_l3_c2, 60, s5_domain::<3>(2, false));
-h!(c18_s5_req_ipv4_whole, 60, s5_ipv4(24, false));
-h!(c18_s5_req_ipv4_c1_stall, 60, s5_ipv4(1, true));
-h!(c18_s5_req_ipv6_loopback, 60, s5_ipv6([0, 0, 0, 0, 0, 0, 0, 0, 0, 0, 0, 0, 0, 0, 0, 1], b"::1"));
-h!(c18_s5_req_ipv6_doc, 60, s5_ipv6([0x20, 0x01, 0x0d, 0xb8, 0, 0, 0, 0, 0, 0, 0, 0, 0, 0, 0, 1], b"2001:db8::1"));
-h!(c18_s5_req_truncated_k0, 60, s5_truncated::<0>());
-h!(c18_s5_req_truncated_k1, 60, s5_truncated::<1>());
-h!(c18_s5_req_truncated_k2, 60, s5_truncated::<2>());
-h!(c18_s5_req_truncated_k3, 60, s5_truncated::<3>());
-h!(c18_s5_req_truncated_k4, 60, s5_truncated::<4>());
-h!(c18_s5_req_truncated_k5, 60, s5_truncated::<5>());
-h!(c18_s5_req_truncated_k6, 60, s5_truncated::<6>());
-h!(c18_s5_req_truncated_k7, 60, s5_truncated::<7>());
-h!(c18_s5_req_truncated_k8, 60, s5_truncated::<8>());
-h!(c18_s5_req_bad_version, 60, s5_bad_version());
-h!(c18_s5_req_unknown_atyp, 60, s5_unknown_atyp());
-h!(c18_s5_auth_n0, 60, s5_auth::<0>(1));
-h!(c18_s5_auth_n2, 60, s5_auth::<2>(1));
-h!(c18_s5_auth_n3, 60, s5_auth::<3>(24));
-h!(c18_s5_auth_truncated, 60, s5_auth_truncated());
-h!(c18_s5_write_auth_method, 70, s5_write_auth_method());
-h!(c18_s5_write_response_v4, 70, s5_write_response_v4());
-h!(c18_s5_write_response_v6, 70, s5_write_response_v6());
-h!(c18_s5_write_response_unspecified, 70, s5_write_response_unspecified());
-h!(c18_s4_req_ip_u0, 60, s4_ip::<0>(24, false));
-h!(c18_s4_req_ip_u2_c1_stall, 60, s4_ip::<2>(1, true));
-h!(c18_s4a_req_u1_d2, 60, s4a_domain::<1, 2>(24, false));
-h!(c18_s4a_req_u0_d0, 60, s4a_domain::<0, 0>(1, false));
-h!(c18_s4a_req_u2_d3_c2_stall, 60, s4a_domain::<2, 3>(2, true));
-h!(c18_s4_req_truncated_in_userid, 60, s4_truncated_in_userid());
-h!(c18_s4a_req_truncated_in_domain, 60, s4a_truncated_in_domain());
-h!(c18_s4_req_truncated_k0, 60, s4_truncated_header::<0>());
-h!(c18_s4_req_truncated_k2, 60, s4_truncated_header::<2>());
-h!(c18_s4_req_truncated_k5, 60, s4_truncated_header::<5>());
-h!(c18_s4_req_truncated_k7, 60, s4_truncated_header::<7>());
-h!(c18_s4_write_response, 70, s4_write_response());
+h!(c18_s5_req_domain_l0, 27, s5_domain::<0>(1, false));
+h!(c18_s5_req_domain_l1_stall, 27, s5_domain::<1>(1, true));
+h!(c18_s5_req_domain_l3_whole, 27, s5_domain::<3>(24, false));
+h!(c18_s5_req_domain_l3_c2, 27, s5_domain::<3>(2, false));
+h!(c18_s5_req_ipv4_whole, 27, s5_ipv4(24, false));
+h!(c18_s5_req_ipv4_c1_stall, 27, s5_ipv4(1, true));
+h!(c18_s5_req_ipv6_loopback, 27, s5_ipv6([0, 0, 0, 0, 0, 0, 0, 0, 0, 0, 0, 0, 0, 0, 0, 1], b"::1"));
+h!(c18_s5_req_ipv6_doc, 27, s5_ipv6([0x20, 0x01, 0x0d, 0xb8, 0, 0, 0, 0, 0, 0, 0, 0, 0, 0, 0, 1], b"2001:db8::1"));
+h!(c18_s5_req_truncated_k0, 27, s5_truncated::<0>());
+h!(c18_s5_req_truncated_k1, 27, s5_truncated::<1>());
+h!(c18_s5_req_truncated_k2, 27, s5_truncated::<2>());
+h!(c18_s5_req_truncated_k3, 27, s5_truncated::<3>());
+h!(c18_s5_req_truncated_k4, 27, s5_truncated::<4>());
+h!(c18_s5_req_truncated_k5, 27, s5_truncated::<5>());
+h!(c18_s5_req_truncated_k6, 27, s5_truncated::<6>());
+h!(c18_s5_req_truncated_k7, 27, s5_truncated::<7>());
+h!(c18_s5_req_truncated_k8, 27, s5_truncated::<8>());
+h!(c18_s5_req_bad_version, 27, s5_bad_version());
+h!(c18_s5_req_unknown_atyp, 27, s5_unknown_atyp());
+h!(c18_s5_auth_n0, 27, s5_auth::<0>(1));
+h!(c18_s5_auth_n2, 27, s5_auth::<2>(1));
+h!(c18_s5_auth_n3, 27, s5_auth::<3>(24));
+h!(c18_s5_auth_truncated, 27, s5_auth_truncated());
+h!(c18_s5_write_auth_method, 27, s5_write_auth_method());
+h!(c18_s5_write_response_v4, 27, s5_write_response_v4());
+h!(c18_s5_write_response_v6, 27, s5_write_response_v6());
+h!(c18_s5_write_response_unspecified, 27, s5_write_response_unspecified());
+h!(c18_s4_req_ip_u0, 27, s4_ip::<0>(24, false));
+h!(c18_s4_req_ip_u2_c1_stall, 27, s4_ip::<2>(1, true));
+h!(c18_s4a_req_u1_d2, 27, s4a_domain::<1, 2>(24, false));
+h!(c18_s4a_req_u0_d0, 27, s4a_domain::<0, 0>(1, false));
+h!(c18_s4a_req_u2_d3_c2_stall, 27, s4a_domain::<2, 3>(2, true));
+h!(c18_s4_req_truncated_in_userid, 27, s4_truncated_in_userid());
+h!(c18_s4a_req_truncated_in_domain, 27, s4a_truncated_in_domain());
+h!(c18_s4_req_truncated_k0, 27, s4_truncated_header::<0>());
+h!(c18_s4_req_truncated_k2, 27, s4_truncated_header::<2>());
+h!(c18_s4_req_truncated_k5, 27, s4_truncated_header::<5>());
+h!(c18_s4_req_truncated_k7, 27, s4_truncated_header::<7>());
+h!(c18_s4_write_response, 27, s4_write_response());
